@@ -18,6 +18,7 @@ Tunnel-end part (tunnel_end_check): the REAL ssnet.runonce / Mux.handle / fill /
 loop of client._main on a scripted ssh channel with the kernel's select semantics (a select without timeout that has
 nothing ready sleeps; end of file keeps a descriptor readable), the tunnel ending in every way while ssh's exit status
 becomes visible 0, 1, 2, ... looks later or never: the client must close the control channel and never sleep for ever."""
+import errno
 import os
 import socket as real_socket
 import sys
@@ -37,7 +38,10 @@ RULE = ("environment scripts x injection points: mostly-valid client life cycles
         "several faults; a case is non-trivial when _main got past ssh.connect; distinct by script text; "
         "tunnel end under the real runonce: messages before the end (none / ROUTES / HOST_LIST / PING with ssh's stdin writable or full / "
         "PONG / stray data) x segmentation x how it ends (EOF alone, with the last message, after EXIT at once or later, inside a message, "
-        "ECONNRESET) x ssh exit status visible after k = 0, 1, 2, ... looks or never x exit status x daemon on/off, listeners idle")
+        "ECONNRESET) x ssh exit status visible after k = 0, 1, 2, ... looks or never x exit status x daemon on/off, listeners idle; "
+        "daemon-mode liveness probe: errno of the failing os.kill(pid, 0) (ESRCH, EPERM = pid re-used by another user's process, EINVAL, "
+        "EACCES, EIO) x success for k = 0..3 looks and failure from then on x tunnel ended (every way above) / still open (ssh gone, an "
+        "orphan holds the channel and keeps sending PINGs) x ROUTES seen or not, and the same errnos in the scripted life cycles")
 TRUSTED_BASE = [
     "modelled, not verified: CPython try/finally and exception replacement semantics, OSError errno->subclass mapping "
     "(PermissionError for EACCES/EPERM), Popen.wait returning a preset returncode, blocking raw read(n) returning 1..n bytes",
@@ -57,8 +61,12 @@ ASSUMPTIONS = [
     "daemonize(): the model continues in the grandchild; the two fork()s return 0",
     "scripted ssnet.runonce (life-cycle part): message dispatch goes through the real Mux.got_packet, but select/fill/flush are C07's "
     "and C01's; that the loop REACHES its next look at ssh after the tunnel ended is checked by the tunnel-end part on the real runonce",
-    "tunnel-end part: the death of ssh shows as end of file or a read error on the ssh channel (an ssh that dies while another process keeps "
-    "its channel open wakes no select-driven loop: outside the property text); its exit status becomes visible to poll()/kill(pid,0) at the "
+    "tunnel-end part: the death of ssh shows as end of file or a read error on the ssh channel, or (ssh_gone_channel_open) not at all on "
+    "the channel while keep-alive traffic from whoever holds it keeps the loop turning (an ssh that dies while another process keeps "
+    "its channel open AND silent wakes no select-driven loop: outside the property text); the harness knows whether ssh is gone: whenever it "
+    "is and a look at the process (poll() / os.kill(pid, 0)) answered anything but `alive`/success, the next loop iteration must not be "
+    "entered and the control channel must be closed (implementation-side oracle; the model's it_dead = Some _ stands for `the probe raised "
+    "OSError` with any errno, so c12_dead_ssh_loop covers every errno and the errno-carrying scripts are compared with that model line); its exit status becomes visible to poll()/kill(pid,0) at the "
     "same moment or any number of looks later; no new connection arrives at the listeners; a select() without timeout with nothing ready "
     "and nothing left to arrive = the client sleeps for ever (implementation-side oracle: the Coq model has no select; "
     "c12_dead_ssh_loop / c12_dead_ssh presuppose that the next iteration is reached)",
@@ -76,6 +84,10 @@ EXN_ALL = ["Fatal.Injected", "OSError.32", "OSError.104", "OSError.5", "OSError.
 HELPER_REPLIES = [b"STARTED\n", b"", b"STARTED", b"STARTE", b"S", b"\n", b"started\n", b"STARTED \n", b" STARTED\n",
                   b"STARTED\r\n", b"STARTEDX\n", b"READY nat\n", b"QUERY_PF_NAT_SUCCESS 10.1.2.3,80\n", b"\xff\xfe\n",
                   b"\0STARTED\n"]
+
+
+# errno of a failing os.kill(pid, 0) (kill(2): ESRCH, EPERM, EINVAL; the others stand for "anything else")
+PROBE_ERRNOS = [3, 1, 22, 13, 5]
 
 
 class Stop(BaseException):
@@ -207,7 +219,7 @@ def impl_run(s, real_helper=None):
           "consumed": b"", "sync_emitted": False,
           # tunnel-end part (s["tunnel"]): the real ssnet.runonce on a scripted ssh channel
           "polls_after_end": 0, "its_after_end": 0, "selects": [], "dead_reported": False, "ran_after_dead": False,
-          "end_read": None}
+          "end_read": None, "looks": []}
     tun = s.get("tunnel")
 
     def sync_consumed():
@@ -281,6 +293,7 @@ def impl_run(s, real_helper=None):
             self.eof = False
             self.err = False
             self.end_delivered = False
+            self.died = False                      # the ssh PROCESS is gone while the channel is still held open
             self.pending = [list(b) for b in tun["batches"]]
             self.nread = 0
 
@@ -288,13 +301,19 @@ def impl_run(s, real_helper=None):
             if not self.pending:
                 return False
             for item in self.pending.pop(0):
-                if item == "EOF":
+                if item == "DIE":
+                    self.died = True
+                elif item == "EOF":
                     self.eof = self.end_delivered = True
                 elif item == "ERR":
                     self.err = self.eof = self.end_delivered = True
                 else:
                     self.avail += bytes.fromhex(item)
             return True
+
+        def gone(self):
+            """the environment KNOWS: the ssh process no longer exists"""
+            return self.end_delivered or self.died
 
         def readable(self):
             return bool(self.avail) or self.eof or self.err
@@ -361,7 +380,7 @@ def impl_run(s, real_helper=None):
     def tun_dead():
         """the exit status of ssh: not visible before the channel's end has reached the client's kernel, and then only
         after `k` further looks (None = never within this run: a wrapper still running, a zombie not yet there)"""
-        if not st["chan"].end_delivered:
+        if not st["chan"].gone():
             return None
         st["polls_after_end"] += 1
         if tun["k"] is not None and st["polls_after_end"] > tun["k"]:
@@ -376,7 +395,7 @@ def impl_run(s, real_helper=None):
         st["it"] += 1
         if st["dead_reported"]:
             st["ran_after_dead"] = True
-        if st["chan"].end_delivered:
+        if st["chan"].gone():
             st["its_after_end"] += 1
             if st["its_after_end"] > (tun["k"] if tun["k"] is not None else 4) + 3:
                 rec("StillLooping(%d)" % st["its_after_end"])
@@ -395,8 +414,11 @@ def impl_run(s, real_helper=None):
     def dead_now():
         if tun:
             return tun_dead()
-        i = st["it"]
-        return s["iters"][i]["dead"] if i < len(s["iters"]) else None
+        # a dead process stays dead: from the iteration at which the script lets ssh die, every later look finds it gone
+        for it in s["iters"][:st["it"] + 1]:
+            if it["dead"] is not None:
+                return it["dead"]
+        return None
 
     class SshProc:
         pid = 4242
@@ -405,7 +427,9 @@ def impl_run(s, real_helper=None):
             if not st["polled0"]:
                 st["polled0"] = True
                 return s["poll0"]
-            return dead_now()
+            rv = dead_now()
+            st["looks"].append("poll()=%r" % (rv,))
+            return rv
 
     def fake_connect(*a, **k):
         rec("Upload")
@@ -418,6 +442,8 @@ def impl_run(s, real_helper=None):
 
     def fake_runonce(handlers, mux):
         i = st["it"]
+        if st.get("probe_failed"):
+            st["ran_after_probe_failed"] = True
         if i >= len(s["iters"]):
             raise Stop()
         st["it"] = i + 1
@@ -612,9 +638,17 @@ def impl_run(s, real_helper=None):
                 raise make_exc(s["cleanup"])
 
         def kill(self, pid, sig):
+            # the daemon-mode liveness probe (client.py:824-834).  The script says WHETHER ssh is gone and WITH WHICH
+            # errno the kernel then answers: ESRCH (no such pid), EPERM (the pid now belongs to another user's process),
+            # EINVAL, ...; OSError(n, ..) yields the subclass the interpreter would raise (ProcessLookupError,
+            # PermissionError, plain OSError)
             assert pid == SshProc.pid and sig == 0
             if dead_now() is not None:
-                raise ProcessLookupError(3, "No such process")
+                en = (tun or s).get("probe_errno") or 3
+                st["looks"].append("kill(pid,0)=%s" % errno.errorcode.get(en, en))
+                st["probe_failed"] = True
+                raise OSError(en, os.strerror(en))
+            st["looks"].append("kill(pid,0)=success")
 
     class Signal:
         SIGTERM = 15
@@ -751,6 +785,8 @@ def impl_run(s, real_helper=None):
         trace.append("WriteAfterClose")
     impl_run.iters_run = st["it"]
     impl_run.extra = extra
+    impl_run.looks = st["looks"]
+    impl_run.ran_after_probe_failed = bool(st.get("ran_after_probe_failed"))
     if tun:
         # what the finally blocks did while the harness's own sentinel travelled up is not something the client did
         for k, e in enumerate(trace):
@@ -759,7 +795,8 @@ def impl_run(s, real_helper=None):
                 break
         impl_run.tun = {"selects": st["selects"], "polls_after_end": st["polls_after_end"], "end_read": st["end_read"],
                         "iterations_after_end": st["its_after_end"], "ran_after_dead": st["ran_after_dead"],
-                        "left_unread": len(st["chan"].avail) if st.get("chan") else None}
+                        "left_unread": len(st["chan"].avail) if st.get("chan") else None,
+                        "looks": st["looks"], "daemon": bool(s["daemon"])}
     return trace
 
 
@@ -772,10 +809,20 @@ def model_view(tr):
 # ----------------------------------------------------------------------
 # the property, evaluated on an implementation trace alone
 
-def oracle(tr, s=None, sync_ok=None, iters_run=None):
+def probe_text(en):
+    return "os.kill(pid, 0) failed with %s (%s)" % (errno.errorcode.get(en, en), os.strerror(en))
+
+
+def oracle(tr, s=None, sync_ok=None, iters_run=None, ran_after_probe_failed=False):
     """returns a list of property failures visible in the recorded trace; with the script s and the
     specification-side verdict sync_ok also those that refer to what the environment did"""
     bad = []
+    if s is not None and ran_after_probe_failed:
+        # `the death of the ssh process ... always results in the control channel ... being closed`, daemon mode: the
+        # script KNOWS that ssh is gone, and the liveness probe did not answer success -- whatever the errno
+        bad.append("daemon mode: ssh is gone and %s, yet the client went on with the next loop iteration: "
+                   "the control channel to the helper stays open%s"
+                   % (probe_text(s.get("probe_errno") or 3), ", interception stays installed" if "FwStart" in tr else ""))
     if s is not None:
         if sync_ok is False and "FwStart" in tr:
             bad.append("helper asked to install rules although the handshake phase did not succeed")
@@ -874,6 +921,11 @@ def gen_cases(ctx):
                 its = [dict(i) for i in good_loop] + [{"dead": None, "acts": []}]
                 its[k] = {"dead": rv, "acts": its[k]["acts"]}
                 add("ssh_dead", base_script(daemon=daemon, iters=its))
+                if daemon:
+                    # the errno with which the kernel answers the daemon-mode probe once ssh is gone: no such pid /
+                    # pid re-used by another user's process / anything else
+                    for en in PROBE_ERRNOS[1:]:
+                        add("ssh_dead_errno", base_script(daemon=True, iters=[dict(i) for i in its], probe_errno=en))
         for e in exns:
             for k in range(3):
                 acts_k = good_loop[k]["acts"]
@@ -960,6 +1012,8 @@ def gen_cases(ctx):
              "start": start, "ready": ropt(0.2, EXN_ALL), "close": ropt(0.15, EXN_ALL),
              "wait": ("V", rng.choice([0, 0, 0, 1, 99])) if rng.random() < 0.85 else ("X", rng.choice(EXN_ALL)),
              "stop": ropt(0.2, EXN_ALL), "cleanup": ropt(0.2, EXN_ALL)}
+        if s["daemon"] and any(it["dead"] is not None for it in s["iters"]):
+            s["probe_errno"] = rng.choice(PROBE_ERRNOS)
         add("random", s)
     return cases
 
@@ -1360,7 +1414,12 @@ def _frame(cmd, data=b"", channel=0):
 
 
 TUN_HOWS = ["eof", "eof_with_last_data", "exit+eof", "exit_then_eof", "eof_mid_frame", "read_error"]
+# the tunnel still OPEN while the ssh process is gone: an orphaned descendant of ssh (ProxyCommand, sshpass, a
+# ControlPersist master) holds the other end of the channel and keep-alive traffic still arrives, so the loop keeps
+# turning; only the look at the process itself can tell
+TUN_OPEN = "ssh_gone_channel_open"
 TUN_HOW_TEXT = {
+    TUN_OPEN: "ssh process gone, its channel still held open by an orphan that keeps sending PINGs (no EOF)",
     "eof": "EOF on the ssh channel",
     "eof_with_last_data": "EOF on the ssh channel, arriving together with the last message",
     "exit+eof": "EXIT message and EOF on the ssh channel together",
@@ -1370,7 +1429,7 @@ TUN_HOW_TEXT = {
 }
 
 
-def tunnel_spec(how, k, rv, pre=("routes",), wfull=False, cuts=()):
+def tunnel_spec(how, k, rv, pre=("routes",), wfull=False, cuts=(), probe_errno=None):
     """environment script of one tunnel life: messages `pre`, then the end `how`; ssh's exit status visible after k
     further looks (None: not within the run).  cuts = byte positions at which the pre-end bytes are split into
     separate deliveries."""
@@ -1388,11 +1447,20 @@ def tunnel_spec(how, k, rv, pre=("routes",), wfull=False, cuts=()):
     pos = [0] + sorted(c for c in set(cuts) if 0 < c < len(body)) + [len(body)]
     batches = [[body[a:b].hex()] for a, b in zip(pos, pos[1:]) if b > a]
     end = "ERR" if how == "read_error" else "EOF"
-    if how in ("eof_with_last_data", "exit+eof", "eof_mid_frame") and batches:
+    if how == TUN_OPEN:
+        # ssh dies; every later delivery is one more PING from the orphan (enough of them for every look the script
+        # lets answer "alive" and for the iterations after which a loop that is still turning is reported)
+        k = 4 if k is None else k
+        batches.append(["DIE", msgs["ping"].hex()])
+        batches += [[msgs["ping"].hex()] for _ in range(k + 6)]
+    elif how in ("eof_with_last_data", "exit+eof", "eof_mid_frame") and batches:
         batches[-1].append(end)
     else:
         batches.append([end])
-    return {"how": how, "k": k, "rv": rv, "pre": list(pre), "wfull": bool(wfull), "batches": batches, "exit_at": exit_at}
+    tun = {"how": how, "k": k, "rv": rv, "pre": list(pre), "wfull": bool(wfull), "batches": batches, "exit_at": exit_at}
+    if probe_errno is not None:
+        tun["probe_errno"] = probe_errno           # daemon mode: errno of os.kill(pid, 0) once ssh is reported gone
+    return tun
 
 
 def tunnel_run(tun, daemon=False, auto_nets=False):
@@ -1410,22 +1478,36 @@ def tunnel_oracle(tr, obs, tun):
     is not prescribed."""
     bad = []
     how = TUN_HOW_TEXT[tun["how"]]
+    opened = tun["how"] == TUN_OPEN
+    ended = "tunnel still open " if opened else "tunnel ended "
     kk = ("never visible" if tun["k"] is None else "visible at the client's next look (k=0)" if tun["k"] == 0 else
           "not yet visible for k=%d polls" % tun["k"])
+    failed_looks = [l for l in obs.get("looks", []) if l.startswith("kill(") and not l.endswith("=success")]
+    if obs.get("daemon") and failed_looks:
+        # daemon mode: what the liveness probe answered is part of the input
+        kk = "daemon mode, %s at look %d after the death" % (probe_text(tun.get("probe_errno") or 3), (tun["k"] or 0) + 1)
+    else:
+        kk = "ssh exit status " + kk
     installed = "FwStart" in tr
     tail = " — control channel never closed" + (", interception stays installed" if installed else "")
     last = tr[-1] if tr else ""
     if last.startswith("Sleeps("):
         asked = last[len("Sleeps("):-1].replace(";", " ")
         only = "on the listeners only" if "ssh-" not in asked else "on %s" % asked
-        bad.append("tunnel ended (%s), ssh exit status %s: client sleeps in select() %s%s" % (how, kk, only, tail))
+        bad.append(ended + "(%s), %s: client sleeps in select() %s%s" % (how, kk, only, tail))
     elif last.startswith("StillLooping("):
-        bad.append("tunnel ended (%s), ssh exit status %s: client loop still turning %s iterations later%s"
+        bad.append(ended + "(%s), %s: client loop still turning %s iterations later%s"
                    % (how, kk, last[len("StillLooping("):-1], tail))
     elif "FwClose" not in tr:
-        bad.append("tunnel ended (%s): the client left without closing the control channel" % how)
+        bad.append(ended + "(%s): the client left without closing the control channel" % how)
     if obs["ran_after_dead"]:
-        bad.append("tunnel ended (%s): the main loop kept running after ssh was found dead" % how)
+        if obs.get("daemon") and failed_looks:
+            # (how the tunnel ended is in the stored input's history; one kind of failure, not one per way of ending)
+            bad.append(ended.strip() + ": ssh is gone and %s, yet the client went on with the next loop iteration%s"
+                       % (probe_text(tun.get("probe_errno") or 3),
+                          " — control channel still open, interception stays installed" if installed and "FwClose" not in tr else ""))
+        else:
+            bad.append(ended + "(%s): the main loop kept running after ssh was found dead" % how)
     # everything the general trace oracle says (order of install / confirm / ready, hang, run ended), minus its
     # generic wording for what is reported above in this part's own words
     for f in oracle(tr):
@@ -1446,13 +1528,23 @@ def tunnel_cases(ctx):
                 for daemon in (False, True):
                     for wfull in ((False, True) if "ping" in pre else (False,)):
                         cases.append((tunnel_spec(how, k, rng.choice([255, 0, 1, -15]), pre, wfull), daemon, rng.random() < 0.3))
+    # the errno of the daemon-mode liveness probe x tunnel ended / still open x success-then-failure at the k-th look
+    for how in TUN_HOWS + [TUN_OPEN]:
+        for k in (0, 1, 2, 3):
+            for en in PROBE_ERRNOS:
+                for pre in (("routes",), ()) if how == TUN_OPEN else (("routes",),):
+                    cases.append((tunnel_spec(how, k, rng.choice([255, 0, 1, -15]), pre, False, (), en), True, False))
+            if how == TUN_OPEN:
+                cases.append((tunnel_spec(how, k, rng.choice([255, 0, 1, -15]), ("routes",)), False, False))   # foreground: poll()
     for _ in range(150 if ctx.quick() else 5000):
         pre = tuple(rng.choice(["routes", "hosts", "ping", "pong", "stray"]) for _ in range(rng.randint(0, 4)))
         if rng.random() < 0.8:
             pre = ("routes",) + pre
         cuts = [rng.randint(1, 80) for _ in range(rng.choice([0, 0, 1, 2, 4]))]
-        cases.append((tunnel_spec(rng.choice(TUN_HOWS), rng.choice([0, 1, 1, 2, 3, 5, None]), rng.choice([255, 0, 1, 99, -9, -15]),
-                                  pre, rng.random() < 0.3, cuts), rng.random() < 0.5, rng.random() < 0.3))
+        daemon = rng.random() < 0.5
+        cases.append((tunnel_spec(rng.choice(TUN_HOWS + [TUN_OPEN]), rng.choice([0, 1, 1, 2, 3, 5, None]), rng.choice([255, 0, 1, 99, -9, -15]),
+                                  pre, rng.random() < 0.3, cuts, rng.choice(PROBE_ERRNOS) if daemon else None),
+                      daemon, rng.random() < 0.3))
     return cases
 
 
@@ -1467,6 +1559,8 @@ def tunnel_end_check(ctx):
         ctx.count("tunnel_end_" + tun["how"])
         ctx.count("tunnel_end_k_%s" % ("never" if tun["k"] is None else min(tun["k"], 3)))
         ctx.count("tunnel_end_left_by_" + next((e[8:-1] for e in tr if e.startswith("MainEnd(")), "none"))
+        if daemon:
+            ctx.count("tunnel_end_probe_%s" % errno.errorcode.get(tun.get("probe_errno") or 3))
         ctx.case(key, nontrivial="MainEnter" in tr,
                  sample={"kind": "tunnel end under the real runonce", "tunnel": tun, "daemon": daemon, "trace": " ".join(tr),
                          "selects": obs["selects"][-3:]} if ctx.rng.random() < 0.01 else None)
@@ -1474,6 +1568,7 @@ def tunnel_end_check(ctx):
             ctx.violation(f, {"kind": "tunnel_end", "tunnel": tun, "daemon": daemon, "auto_nets": auto_nets, "trace": tr,
                               "history": {"how_the_tunnel_ended": TUN_HOW_TEXT[tun["how"]],
                                           "looks_at_ssh_answering_alive_after_the_end": tun["k"],
+                                          "looks_at_ssh": obs.get("looks"),
                                           "what_select_was_asked_and_answered": obs["selects"],
                                           "loop_iterations_after_the_end": obs["iterations_after_end"]}})
     ctx.extra["tunnel_end_cases"] = len(seen)
@@ -1491,7 +1586,10 @@ def correspondence(ctx):
     for (kind, s), ln, m, v in zip(cases, lines, model, verdict):
         # the model's script line carries "helper answered STARTED yes/no"; the exact bytes of another answer are
         # an input of the real code only (the model treats every other answer like no answer, as the code does)
-        key = (ln, s.get("reply"), s.get("python"), s.get("notify_at"), any(a[0] == "S" for it in s["iters"] for a in it["acts"]))
+        # likewise the errno of the failing daemon-mode probe: the model's it_dead = Some _ stands for "os.kill raised
+        # OSError", whatever the errno (ClientLife.v:99-100), so every errno is compared with the same model line
+        key = (ln, s.get("reply"), s.get("python"), s.get("notify_at"), any(a[0] == "S" for it in s["iters"] for a in it["acts"]),
+               s.get("probe_errno"))
         if key in seen:
             continue
         seen.add(key)
@@ -1499,14 +1597,20 @@ def correspondence(ctx):
         ctx.count("daemon" if s["daemon"] else "foreground")
         tr = impl_run(s)
         i = " ".join(model_view(tr))
-        ctx.case(key if key[1:] != (None, None, None, False) else ln, nontrivial=("SyncOk" in tr or len(tr) > 5),
+        if s.get("probe_errno"):
+            ctx.count("probe_errno_%s" % errno.errorcode.get(s["probe_errno"], s["probe_errno"]))
+        ctx.case(key if key[1:] != (None, None, None, False, None) else ln, nontrivial=("SyncOk" in tr or len(tr) > 5),
                  sample={"kind": kind, "script": ln, "trace": i} if kind in ("valid", "inj_loop", "ssh_dead", "random") and
                  ctx.rng.random() < 0.02 else None)
         for e in tr + impl_run.extra:
             ctx.count("ev_" + e.split("(")[0])
-        fails = oracle(tr, s, v.split(" ")[0] == "1", impl_run.iters_run)
+        fails = oracle(tr, s, v.split(" ")[0] == "1", impl_run.iters_run, impl_run.ran_after_probe_failed)
         for f in sorted(set(fails)):
             rp = {"script": ln, "trace": tr, "handshake_phase_ok": v.split(" ")[0]}
+            if s["daemon"] and impl_run.looks:
+                rp["looks_at_ssh"] = impl_run.looks
+            if s.get("probe_errno") is not None:
+                rp["probe_errno"] = s["probe_errno"]
             if s.get("reply") is not None:
                 rp["helper_reply_hex"] = hx(s["reply"])
             for k2 in ("python", "notify_at"):
@@ -1514,8 +1618,9 @@ def correspondence(ctx):
                     rp[k2] = s[k2]
             ctx.violation(f, rp)
         if i != m:
-            ctx.disagree("client life-cycle trace", ln if key[1:] == (None, None, None, False) else
-                         {"script": ln, "python": s.get("python"), "notify_at": s.get("notify_at"), "sigterm": key[4]}, i, m, holds=(not fails))
+            ctx.disagree("client life-cycle trace", ln if key[1:] == (None, None, None, False, None) else
+                         {"script": ln, "python": s.get("python"), "notify_at": s.get("notify_at"), "sigterm": key[4],
+                          "probe_errno": s.get("probe_errno")}, i, m, holds=(not fails))
     ctx.programs = len(seen)
     ctx.extra["exception_classes"] = EXN_ALL
 
@@ -1564,6 +1669,7 @@ def replay(ctx, rp):
         print("trace:", " ".join(tr))
         for ln in obs["selects"]:
             print("  select", ln)
+        print("looks at ssh:", obs.get("looks"))
         print("property failures:", fails)
         return bool(fails)
     if r.get("kind") == "init":
@@ -1587,14 +1693,16 @@ def replay(ctx, rp):
     if r.get("helper_reply_hex") is not None:
         s["reply"] = b"" if r["helper_reply_hex"] == "-" else bytes.fromhex(r["helper_reply_hex"])
         print("helper's answer to GO: %r, helper poll() at that moment: %r" % (s["reply"], s["start"][2] if s["start"][0] == "P" else None))
-    for k2 in ("python", "notify_at"):
+    for k2 in ("python", "notify_at", "probe_errno"):
         if r.get(k2) is not None:
             s[k2] = r[k2]
     if r.get("real_helper"):
         print("(stored from the real-helper-process run; replayed with the scripted helper)")
     tr = impl_run(s)
     hp = r.get("handshake_phase_ok")
-    fails = oracle(tr, s, None if hp is None else hp == "1", impl_run.iters_run)
+    fails = oracle(tr, s, None if hp is None else hp == "1", impl_run.iters_run, impl_run.ran_after_probe_failed)
+    if s["daemon"] and impl_run.looks:
+        print("looks at ssh (daemon mode):", impl_run.looks)
     print("trace:", " ".join(tr))
     print("property failures:", fails)
     return bool(fails)
